@@ -4,7 +4,11 @@
 // numbers observed at the PlatformSpecificRand seam, repeated runs.
 //
 // ops:  test n|i <group hex> <name hex>      register a shell (id = registration index)
-//       gfilter|nfilter <flags> <hex> [j]    flags: bit0 strict, bit1 invert; j: joined argv form
+//       gfilter|nfilter <flags> <hex> [j|s|d]   flags: bit0 strict, bit1 invert (-g -sg -xg -xsg / -n -sn -xn -xsn)
+//       tfilter <flags> <group hex> <name hex> [j|s|d]   -t -st -xt -xst <group>.<name>
+//       vfilter T|I <group hex> <name hex> [j|s|d]       "TEST(group, name)" / "IGNORE_TEST(group, name)"
+//           j: through the real parser, value attached to the option; s: through the parser, value in the
+//           next argument; d: TestFilter objects constructed directly; none: s after `cmdline`, else d
 //       cmdline                              build the filters / run-ignored through the parser
 //       runignored | reverse | shuffle <seed> [scripted rand values...] | run
 //       undo                                 TestRegistry::unDoLastAddTest
@@ -126,7 +130,8 @@ int rec_rand() {
 }
 void rec_srand(unsigned int s) { g_srands.push_back(s); srand(s); }
 
-struct FilterSpec { bool group; unsigned flags; std::string text; bool joined; };
+// kind: 0 group filter, 1 name filter, 2 group.name (-t family), 3 TEST(g, n), 4 IGNORE_TEST(g, n)
+struct FilterSpec { int kind; unsigned flags; std::string text; std::string text2; char mode; };
 
 // prints the list order; false if following next_ does not reach NULL within n+2 steps (a cyclic
 // list: every loop of the real code over it would run for ever, so the caller skips the operation)
@@ -155,47 +160,74 @@ struct RecRunner : public CommandLineTestRunner {
     TestOutput* createTeamCityOutput() CPPUTEST_OVERRIDE { return new RecordingOutput; }
 };
 
-void filter_argv(const std::vector<FilterSpec>& filters, bool runIgnored, std::vector<std::string>& argvStore) {
+// argv words of one filter as given on the command line
+void filter_words(const FilterSpec& f, bool attached, std::vector<std::string>& out) {
     static const char* gflag[4] = { "-g", "-sg", "-xg", "-xsg" };
     static const char* nflag[4] = { "-n", "-sn", "-xn", "-xsn" };
+    static const char* tflag[4] = { "-t", "-st", "-xt", "-xst" };
+    std::string opt, value;
+    if (f.kind == 0) { opt = gflag[f.flags]; value = f.text; }
+    else if (f.kind == 1) { opt = nflag[f.flags]; value = f.text; }
+    else if (f.kind == 2) { opt = tflag[f.flags]; value = f.text + "." + f.text2; }
+    else { opt = f.kind == 3 ? "TEST(" : "IGNORE_TEST("; value = f.text + ", " + f.text2 + ")"; }
+    if (attached && !value.empty()) out.push_back(opt + value);
+    else { out.push_back(opt); out.push_back(value); }
+}
+
+// all filters on one command line (the runner op); `onlyParsed`: leave out the directly constructed ones
+void filter_argv(const std::vector<FilterSpec>& filters, bool runIgnored, std::vector<std::string>& argvStore, bool onlyParsed = false) {
     argvStore.push_back("h_c02");
     for (size_t j = 0; j < filters.size(); j++) {
-        const char* fl = filters[j].group ? gflag[filters[j].flags] : nflag[filters[j].flags];
-        if (filters[j].joined) argvStore.push_back(std::string(fl) + filters[j].text);
-        else { argvStore.push_back(fl); argvStore.push_back(filters[j].text); }
+        if (onlyParsed && filters[j].mode == 'd') continue;
+        filter_words(filters[j], filters[j].mode == 'j', argvStore);
     }
     if (runIgnored) argvStore.push_back("-ri");
 }
 
-// the registry's filter lists for a direct run / list: real TestFilter objects, or the parser's
+void free_filters_until(TestFilter* f, const TestFilter* stop) { while (f && f != stop) { TestFilter* n = f->getNext(); delete f; f = n; } }
+
+// the registry's filter lists for a direct run / list: the parser's lists (for the filters given on a
+// command line) with the directly constructed TestFilter objects linked in front of them
 struct FilterSet {
     TestFilter* gf; TestFilter* nf; CommandLineArguments* args;
+    const TestFilter* pg; const TestFilter* pn;
     std::vector<std::string> argvStore; std::vector<const char*> argv;
-    FilterSet() : gf(0), nf(0), args(0) {}
+    FilterSet() : gf(0), nf(0), args(0), pg(0), pn(0) {}
+    static TestFilter* mk(const std::string& text, unsigned flags) {
+        TestFilter* f = new TestFilter(text.c_str());
+        if (flags & 1u) f->strictMatching();
+        if (flags & 2u) f->invertMatching();
+        return f;
+    }
     void install(TestRegistry& reg, const std::vector<FilterSpec>& filters, bool viaCmdline, bool runIgnoredWanted) {
-        if (viaCmdline) {
-            filter_argv(filters, runIgnoredWanted, argvStore);
+        bool anyParsed = viaCmdline;
+        for (size_t j = 0; j < filters.size(); j++) if (filters[j].mode != 'd') anyParsed = true;
+        if (anyParsed) {
+            filter_argv(filters, viaCmdline && runIgnoredWanted, argvStore, true);
             for (size_t j = 0; j < argvStore.size(); j++) argv.push_back(argvStore[j].c_str());
             args = new CommandLineArguments((int) argv.size(), &argv[0]);
             if (!args->parse(NullTestPlugin::instance())) vh::emit("parse-failed");
-            reg.setGroupFilters(args->getGroupFilters());
-            reg.setNameFilters(args->getNameFilters());
+            pg = args->getGroupFilters(); pn = args->getNameFilters();
             if (args->isRunIgnored()) reg.setRunIgnored();
         }
-        else {
-            for (size_t j = 0; j < filters.size(); j++) {
-                TestFilter* f = new TestFilter(filters[j].text.c_str());
-                if (filters[j].flags & 1u) f->strictMatching();
-                if (filters[j].flags & 2u) f->invertMatching();
-                if (filters[j].group) gf = f->add(gf); else nf = f->add(nf);
+        gf = (TestFilter*) pg; nf = (TestFilter*) pn;
+        for (size_t j = 0; j < filters.size(); j++) {
+            const FilterSpec& f = filters[j];
+            if (f.mode != 'd') continue;
+            if (f.kind == 0) gf = mk(f.text, f.flags)->add(gf);
+            else if (f.kind == 1) nf = mk(f.text, f.flags)->add(nf);
+            else {
+                unsigned fl = f.kind == 2 ? f.flags : 1u;
+                gf = mk(f.text, fl)->add(gf);
+                nf = mk(f.text2, fl)->add(nf);
             }
-            reg.setGroupFilters(gf);
-            reg.setNameFilters(nf);
         }
+        reg.setGroupFilters(gf);
+        reg.setNameFilters(nf);
     }
     void remove(TestRegistry& reg) {
         reg.setGroupFilters(0); reg.setNameFilters(0);
-        free_filters(gf); free_filters(nf); gf = nf = 0;
+        free_filters_until(gf, pg); free_filters_until(nf, pn); gf = nf = 0;
         delete args; args = 0;
     }
 };
@@ -228,10 +260,33 @@ void run_case(const vh::Case& c) {
             reg.addTest(s);
         }
         else if ((w[0] == "gfilter" || w[0] == "nfilter") && w.size() >= 3) {
-            FilterSpec f; f.group = w[0] == "gfilter"; f.flags = (unsigned) vh::to_u64(w[1]) & 3u; f.text = vh::unhex(w[2]);
-            f.joined = w.size() >= 4 && w[3] == "j" && !f.text.empty();
+            FilterSpec f; f.kind = w[0] == "gfilter" ? 0 : 1; f.flags = (unsigned) vh::to_u64(w[1]) & 3u; f.text = vh::unhex(w[2]);
+            std::string m = w.size() >= 4 ? w[3] : "";
+            f.mode = (m == "j" || m == "s" || m == "d") ? m[0] : (viaCmdline ? 's' : 'd');
             filters.push_back(f);
-            vh::emit("> %s %u %s%s", w[0].c_str(), f.flags, vh::hex(f.text).c_str(), f.joined ? " j" : "");
+            std::string sfx = (m == "j" || m == "s" || m == "d") ? " " + m : std::string();
+            vh::emit("> %s %u %s%s", w[0].c_str(), f.flags, vh::hex(f.text).c_str(), sfx.c_str());
+        }
+        else if ((w[0] == "tfilter" || w[0] == "vfilter") && w.size() >= 4) {
+            FilterSpec f; f.text = vh::unhex(w[2]); f.text2 = vh::unhex(w[3]);
+            bool ok;
+            if (w[0] == "tfilter") {
+                f.kind = 2; f.flags = (unsigned) vh::to_u64(w[1]) & 3u;
+                // documented form <group>.<name>: no '.' inside either part, a name is given
+                ok = f.text.find('.') == std::string::npos && f.text2.find('.') == std::string::npos && !f.text2.empty();
+            }
+            else {
+                f.kind = w[1] == "I" ? 4 : 3; f.flags = 1u;
+                // the form the verbose output prints: TEST(group, name)
+                ok = f.text.find_first_of(",)") == std::string::npos && f.text2.find_first_of(",)") == std::string::npos && !f.text.empty();
+            }
+            std::string m = w.size() >= 5 ? w[4] : "";
+            f.mode = (m == "j" || m == "s" || m == "d") ? m[0] : (viaCmdline ? 's' : 'd');
+            if (!ok) { vh::emit("> skip"); continue; }
+            filters.push_back(f);
+            std::string sfx = (m == "j" || m == "s" || m == "d") ? " " + m : std::string();
+            if (f.kind == 2) vh::emit("> tfilter %u %s %s%s", f.flags, vh::hex(f.text).c_str(), vh::hex(f.text2).c_str(), sfx.c_str());
+            else vh::emit("> vfilter %s %s %s%s", f.kind == 4 ? "I" : "T", vh::hex(f.text).c_str(), vh::hex(f.text2).c_str(), sfx.c_str());
         }
         else if (w[0] == "cmdline") { vh::emit_op("cmdline"); viaCmdline = true; }
         else if (w[0] == "runignored") { vh::emit_op("runignored"); runIgnoredWanted = true; if (!viaCmdline) reg.setRunIgnored(); }
